@@ -306,13 +306,24 @@ func runC02(w *World, pi interface{}) {
 			time.Sleep(time.Second)
 			raw.Close()
 		}()
-		for i := 0; i < len(stream)+2; i++ {
+		again := 0
+		for i := 0; i < 2*len(stream)+4; i++ {
 			rctx, rcancel := context.WithTimeout(context.Background(), 30*time.Second)
 			env, err := tr.Receive(rctx)
+			expired := rctx.Err() != nil
 			rcancel()
 			if err != nil {
 				w.Count("rejected")
-				break
+				// an envelope that is well-formed JSON but no valid envelope is rejected on its own:
+				// the transport stays connected and a caller may go on receiving after it
+				if !tr.Connected() || expired {
+					break
+				}
+				if again++; again > len(stream)+2 {
+					break
+				}
+				w.Count("received-again-after-rejection")
+				continue
 			}
 			w.Count("accepted")
 			reencodeStable(w, "the TCP transport", env)
@@ -351,6 +362,7 @@ func runC02(w *World, pi interface{}) {
 		for i := 0; i < len(stream)+2; i++ {
 			rctx, rcancel := context.WithTimeout(context.Background(), 30*time.Second)
 			env, err := tr.Receive(rctx)
+			expired := rctx.Err() != nil
 			rcancel()
 			if err != nil {
 				w.Count("rejected")
@@ -358,9 +370,10 @@ func runC02(w *World, pi interface{}) {
 					break
 				}
 				// the websocket transport rejects one frame and may go on with the next
-				if rctx.Err() != nil {
+				if expired {
 					break
 				}
+				w.Count("received-again-after-rejection")
 				continue
 			}
 			w.Count("accepted")
@@ -386,9 +399,10 @@ func runC02(w *World, pi interface{}) {
 			sut.Shutdown()
 			return
 		}
-		ScriptRun(w, peer, []Step{{Op: "auto"}, {Op: "auto"}})
+		ScriptRun(w, peer, []Step{{Op: "auto"}, {Op: "auto", Choice: 1}}) // the builder offers [transport guest]
 		if fstr(peer.LastSessionFrame(), "state") != "established" {
-			w.Count("not-established")
+			w.Count("not-established-srv")
+			w.Tracef("server session not established: %s", h.Dump(20))
 			peer.Close()
 			sut.Shutdown()
 			return
@@ -405,7 +419,7 @@ func runC02(w *World, pi interface{}) {
 		w.Net.OnLink = nil
 		p2, err := sut.Dial(1)
 		if err == nil {
-			ScriptRun(w, p2, []Step{{Op: "auto"}, {Op: "auto", From: 1}})
+			ScriptRun(w, p2, []Step{{Op: "auto"}, {Op: "auto", Choice: 1, From: 1}})
 			if fstr(p2.LastSessionFrame(), "state") != "established" && !hasPanic() {
 				w.Violate("C02.server-unusable-after-hostile-input", "transport="+p.Trans, "after hostile frames on one session a fresh client could not establish a session: last frame %s\n%s", canonJSON(p2.LastSessionFrame()), h.Dump(30))
 			}
@@ -449,7 +463,8 @@ func runC02(w *World, pi interface{}) {
 		_, err = ch.EstablishSession(ectx, compSelector, lime.NoneEncryptionSelector, lime.Identity{Name: "a", Domain: "b.org"}, authenticatorFor("guest"), "i")
 		ecancel()
 		if err != nil || !ch.Established() {
-			w.Count("not-established")
+			w.Count("not-established-cli")
+			w.Tracef("client session not established: %v\n%s", err, h.Dump(20))
 			ch.Close()
 			return
 		}
